@@ -443,6 +443,51 @@ fn main() {
         st
     };
 
+    // (d4) the process context: zerv started in a directory that no longer exists, with descriptor 0 closed, or both - with an absolute
+    // -C, without -C, for sub-commands that never look at the directory - plain, with -v and under RUST_LOG=debug / trace (log statements are
+    // evaluated only then)
+    let s_d4 = {
+        let zb = proc::zerv_bin().to_string_lossy().to_string();
+        let root = gitx::scratch_root().join("d4");
+        let _ = std::fs::create_dir_all(&root);
+        let shape = gitx::Shape { parents: vec![vec![], vec![0]], branches: [("main".to_string(), 1usize)].into_iter().collect(), cur: "main".into(), ops: vec!["commit".into()] };
+        let mut repo = gitx::Repo::create(&root, "repo", &shape, &gitx::dates(2, gitx::DateMode::Increasing));
+        repo.set_tags(&[gitx::Tag { name: "v1.2.3".into(), target: 0, annotated: false }]);
+        repo.set_head(&gitx::Head::Branch("main".into()));
+        let dir = repo.dir.to_string_lossy().to_string();
+        let cmds: Vec<(String, bool)> = vec![(format!("version -C {dir}"), true), (format!("flow -C {dir}"), true), (format!("version -C {dir} --source none --tag-version 1.2.3"), true), (format!("version -C {dir} --output-format zerv"), true),
+            ("version --source none --tag-version 1.2.3".to_string(), false), ("version".to_string(), false), ("flow".to_string(), false), ("check 1.2.3".to_string(), true), ("render 1.2.3 --output-format pep440".to_string(), true), ("--version".to_string(), true)];
+        let contexts = [("start-directory-removed", "mkdir -p \"$1\" && cd \"$1\" && rmdir \"$1\" && exec \"$0\" CMD </dev/null"), ("stdin-closed", "exec \"$0\" CMD <&-"), ("start-directory-removed+stdin-closed", "mkdir -p \"$1\" && cd \"$1\" && rmdir \"$1\" && exec \"$0\" CMD <&-")];
+        let verb: [(&str, &str, Option<(&str, &str)>); 4] = [("plain", "", None), ("-v", " -v", None), ("RUST_LOG=debug", "", Some(("RUST_LOG", "debug"))), ("RUST_LOG=trace", "", Some(("RUST_LOG", "trace")))];
+        let work: Vec<(usize, usize, usize)> = (0..cmds.len()).flat_map(|c| (0..contexts.len()).flat_map(move |x| (0..verb.len()).map(move |v| (c, x, v)))).collect();
+        let st = work.par_iter().enumerate().map(|(i, &(c, x, v))| {
+            let mut st = Stats::default();
+            st.inc("process_context_runs"); st.inc("process_runs");
+            let (cmd, must_succeed) = &cmds[c];
+            let full = if cmd.starts_with("--") { cmd.clone() } else { format!("{cmd}{}", verb[v].1) };
+            let script = contexts[x].1.replace("CMD", &full);
+            let gone = root.join(format!("gone{i}")).to_string_lossy().to_string();
+            let mut env = gitx::git_env();
+            for k in ["LD_PRELOAD", "ZERV_VERIF_NOW"] { if let Ok(val) = std::env::var(k) { env.push((k.into(), val)); } }
+            if let Some((k, val)) = verb[v].2 { env.push((k.into(), val.into())); }
+            let o = proc::run(&proc::Run { program: std::path::Path::new("/bin/sh"), args: vec!["-c".into(), script.clone(), zb.clone(), gone], stdin: None, env, cwd: Some(std::path::Path::new("/")), timeout: std::time::Duration::from_secs(30) }).unwrap_or_else(|e| machinery_error(&format!("cannot spawn sh: {e}")));
+            let key = format!("[process-context {} | {} | {}]", contexts[x].0, cmd.replace(&dir, "<repo>"), verb[v].0);
+            let case = json!({"kind":"process-context","script":script,"verbosity":verb[v].0});
+            if o.timed_out { ctx.violation("no_termination_within_horizon", key, case, "still running after 30 s".into()); return st; }
+            if o.status == 101 || o.status < 0 || o.status == 134 || o.stderr_str().contains("panicked at") { ctx.violation("process_panic_or_abort", key, case, format!("exit {} {}", o.status, truncate(o.stderr_str().trim(), 200))); return st; }
+            if o.status != 0 && !o.stdout.is_empty() { ctx.violation("result_printed_on_failure", key.clone(), case.clone(), format!("exit {} stdout {:?}", o.status, truncate(&o.stdout_str(), 80))); }
+            if o.status != 0 && o.stderr.is_empty() { ctx.violation("failure_without_diagnostic", key.clone(), case.clone(), format!("exit {} and nothing on stderr", o.status)); }
+            if o.status == 0 && o.stdout_str().trim().is_empty() { ctx.violation("success_without_result_line", key.clone(), case.clone(), "exit 0 and nothing on stdout".into()); }
+            if o.status == 0 && !cmd.contains("zerv") && !cmd.starts_with("--") && !cmd.starts_with("check") && o.stdout_str().lines().count() != 1 { ctx.violation("stdout_not_only_the_result", key.clone(), case.clone(), format!("stdout {:?}", truncate(&o.stdout_str(), 120))); }
+            // the directory zerv was started in is not an input when -C is absolute or the sub-command has no directory
+            if *must_succeed && o.status != 0 { st.inc("process_context_refused"); }
+            st
+        }).reduce(Stats::default, Stats::merge);
+        repo.remove();
+        let _ = std::fs::remove_dir_all(&root);
+        st
+    };
+
     // (e) hostile repository states: long and non-ASCII reference names (git's answers then exceed any fixed-size buffer or
     // preview and contain multi-byte characters at every byte offset), many tags on one commit; plain, -v and RUST_LOG=trace
     let s_e = {
@@ -487,7 +532,7 @@ fn main() {
     let s_c = git_faults(&ctx, quick);
     let _ = std::fs::remove_dir_all(gitx::scratch_root());
 
-    let all = s_a.merge(s_b).merge(s_h).merge(s_c).merge(s_d).merge(s_d2).merge(s_d3).merge(s_e);
+    let all = s_a.merge(s_b).merge(s_h).merge(s_c).merge(s_d).merge(s_d2).merge(s_d3).merge(s_d4).merge(s_e);
     let mut cov = Coverage::default();
     cov.evaluations = all.get("inprocess_runs") + all.get("process_runs");
     cov.states = jobs.len() as u64 + all.get("fault_plans");
